@@ -114,9 +114,9 @@ def main():
     bmetas = sorted(glob.glob(ROOT + "/benign_seeded/*/meta.json"))
     if bmetas:
         out += ["### D.2 Behaviour-preserving changes written by independent sub-agents (`/verif/benign_seeded/<ID>-bN/`)", "",
-                "Six rounds (20, 20, 20, 20, 10, 14). Each sub-agent saw only the text of one property and was asked for a realistic, deliberately visible change of",
+                "Seven rounds (20, 20, 20, 20, 10, 14, 12; the seventh - suffix `-b7`, asked for CORRECT changes that make the code cope with large inputs: memo tables keyed by node identity, dynamic programming instead of exponential recursion, block-wise reading, wrapped output, other node numbering - was run against the checks of the property concerned and its neighbours, 2..7 checks each, after the wide stages of section 0.1 were added). Each sub-agent saw only the text of one property and was asked for a realistic, deliberately visible change of",
                 "*unspecified* behaviour under which the statement, read literally, still holds. Every patch was applied in the lab and",
-                "ALL 20 checks were run (quick). `first run` records what happened before any correction of the machinery; `review` is my",
+                "ALL 20 checks were run (quick; round 7: the checks listed in its `meta.json`). `first run` records what happened before any correction of the machinery; `review` is my",
                 "verdict on whether the change really preserves the property (an alarm on a change that does not is a true positive).", "",
                 "| change | what differs (from its NOTES.md) | review | alarms, final machinery | first run |", "|---|---|---|---|---|"]
         for mp in bmetas:
